@@ -89,7 +89,7 @@ func (e *Query) writeTo(s *strings.Builder) {
 }
 
 func (e *Query) toIndexKey() any {
-	if e.Term == nil {
+	if e.Term == nil || len(e.FuncDefs) > 0 {
 		return nil
 	}
 	return e.Term.toIndexKey()
